@@ -380,7 +380,7 @@ class Gen:
             elif k == "record":
                 ops.append(["record", s.draw(2, "mtype"), self.fresh(), s.weighted((3, 3, 3, 1), "merge")])
             elif k == "log":
-                ops.append(["log", s.draw(4, "level"), s.draw(4, "fmt"), s.draw(3, "exc")])
+                ops.append(["log", s.draw(4, "level"), s.draw(6, "fmt"), s.draw(3, "exc")])
             elif k == "pause":
                 ops.append(["pause"])
             elif k == "raise_":
@@ -394,7 +394,13 @@ class Gen:
                 ops.append(["check_cancel"])
             elif k == "try_":
                 self.blocks += 1
-                ops.append(["try", self.block(depth + 1, in_sync), int(c["try_swallow"] and s.draw(2, "swallow"))])
+                body = self.block(depth + 1, in_sync)
+                cleanup = []
+                if c["w"]["spawn"] and self.actors < c["max_actors"] and s.chance(1, 3, "cleanup-spawns"):
+                    # cleanup code that spawns (runs while the enclosing group may already be shutting down)
+                    self.actors += 1
+                    cleanup = [["spawn", 0, {"gate": s.weighted(c["spawn_gate"], "gate"), "fail": 0}, [["pause"]]]]
+                ops.append(["try", body, int(c["try_swallow"] and s.draw(2, "swallow")), cleanup])
         return ops
 
     def program(self):
@@ -582,8 +588,14 @@ class Engine:
         except SimStop:
             raise
         except BaseException:  # noqa: BLE001
-            # the adopting group refuses new tasks (it is shutting down): identity cannot be observed here
-            return None
+            # the adopting group refuses new tasks.  That is legitimate only while the group the shadow stack says we
+            # are in is (possibly) shutting down; otherwise the refusal itself shows that a stale group is current.
+            scope = self.innermost_async(actor.stack)
+            if scope is None:
+                return ("refused", "no enclosing async scope")
+            if scope.child_failed or scope.body_ended or (scope.actor is not actor and scope.actor.cancel_landed is not None):
+                return None
+            return ("refused", f"group of scope #{scope.uid} is not shutting down")
         owner = None
         try:
             for cb, _c in (t._callbacks or ()):
@@ -992,7 +1004,7 @@ class Engine:
                 raise
             except BaseException as exc:
                 child.end_exc = exc
-                if isinstance(exc, Injected) and scope is not None and via == 0:
+                if not isinstance(exc, asyncio.CancelledError) and scope is not None and via == 0:
                     scope.child_failed = True
                     sim.event("child-failed", child.aid, scope.uid)
                 raise
@@ -1078,9 +1090,15 @@ class Engine:
         self.logn += 1
         marker = f"hv#{self.logn}#"
         fmts = (("plain " + marker, ()), ("one %s " + marker, ("arg",)), ("two %s %d " + marker, ("x", 7)),
-                ("pct 100%% %s " + marker, ("y",)))
+                ("pct 100%% %s " + marker, ("y",)), ("map %(k)s %(n)d " + marker, ({"k": "v", "n": 3},)),
+                ("star %*d " + marker, (4, 2)))
         text, args = fmts[fmt]
-        user = text % args if args else text
+        if not args:
+            user = text
+        elif len(args) == 1 and isinstance(args[0], dict):
+            user = text % args[0]
+        else:
+            user = text % args
         scope = self.innermost_scope(actor.stack)
         exc = None
         if exc_kind == 1 and level != 2:
@@ -1213,13 +1231,16 @@ class Engine:
 
     async def op_try(self, actor, op):
         sim = self.sim
-        _k, body, swallow = op
+        _k, body, swallow, cleanup = op
         try:
             await self.run_ops(actor, body)
         except SimStop:
             raise
         except asyncio.CancelledError:
             sim.event("try-caught", actor.aid, "CancelledError")
+            if cleanup:
+                sim.stats["cleanup_spawn_after_cancel"] += 1
+                await self.run_ops(actor, cleanup)
             if self.cfg["cancel_rules"] and actor.harness_cancel and actor.cancel_landed:
                 # user code that catches the cancellation asks the context: it must report it
                 from haiway import ctx
@@ -1233,6 +1254,9 @@ class Engine:
             raise
         except BaseException as exc:  # noqa: BLE001
             sim.event("try-caught", actor.aid, type(exc).__name__)
+            if cleanup:
+                sim.stats["cleanup_spawn_after_error"] += 1
+                await self.run_ops(actor, cleanup)
             if not swallow:
                 raise
 
